@@ -424,6 +424,23 @@ func runC17(cx *ctx) {
 				if oracle == "" && len(ran) > 0 && !named {
 					oracle = fmt.Sprintf("the CLI started %v although no plugin recipient, identity or name was given (argument %q)", ran, arg)
 				}
+				// the first clause, without the model, for the bare name of -j: a name with a character outside
+				// [A-Za-z0-9+-._] (any path separator in particular) starts nothing, and for an accepted name the program
+				// started is age-plugin-<that name>, nothing derived from it
+				if op == "clij" && oracle == "" && len(ran) > 0 {
+					okName := arg != ""
+					for _, ch := range []byte(arg) {
+						if !(ch >= 'a' && ch <= 'z' || ch >= 'A' && ch <= 'Z' || ch >= '0' && ch <= '9' || ch == '+' || ch == '-' || ch == '.' || ch == '_') {
+							okName = false
+						}
+					}
+					argv0 := ran[0][strings.Index(ran[0], "=")+1:]
+					if !okName {
+						oracle = fmt.Sprintf("the CLI started %v for the -j value %q, which is not a valid plugin name", ran, arg)
+					} else if filepath.Base(argv0) != "age-plugin-"+arg {
+						oracle = fmt.Sprintf("the CLI started %q for -j %q: not age-plugin-%s", ran[0], arg, arg)
+					}
+				}
 				return &h.Case{Kind: kind, Line: op + " " + hx(arg), Impl: impl, Oracle: oracle, NonTrivial: true,
 					Note:  fmt.Sprintf("age %s (exit %d)", strings.Join(args, " "), exit),
 					Canon: canonCli}
